@@ -10,6 +10,8 @@ Lemma exec_label_actor fx w s l s' :
   match l with
   | LDeliver t ok => exists a m rest a' os ob, actors s !! t = Some a /\ inbox s !! t = Some (m :: rest) /\
        actor_step fx ok a (EMsg m) = Some (a', os, ob) /\ actors s' = <[t := a']> (actors s) /\ termq s' = termq s /\ ph s' = ph s
+  | LDeliverAt t _ ok => exists a m (rest : list msg) a' os ob, actors s !! t = Some a /\ True /\
+       actor_step fx ok a (EMsg m) = Some (a', os, ob) /\ actors s' = <[t := a']> (actors s) /\ termq s' = termq s /\ ph s' = ph s
   | LInval t ok => exists a a' os ob, actors s !! t = Some a /\
        actor_step fx ok a EInval = Some (a', os, ob) /\ actors s' = <[t := a']> (actors s) /\ termq s' = termq s /\ ph s' = ph s
   | LTermActor t => exists a a' os ob, actors s !! t = Some a /\ t ∈ termq s /\
@@ -25,7 +27,13 @@ Proof.
             exists a' os ob, r = Some (a', os, ob) /\ actors s1 = <[t := a']> (actors s) /\ termq s1 = tq /\ ph s1 = ph s).
   { intros t ib sl tq r s1. unfold apply_step. destruct r as [[[a' os] ob]|]; [|done].
     destruct (route ib (rootq s) os). intros [= <-]. cbn. eauto 10. }
-  destruct l as [t ok|t ok|t|t r| | | | |ts|]; cbn [exec]; intros H.
+  assert (Hroot : forall o rest, ph s = PRun ->
+            actors (root_consume w s o rest) = actors s /\
+            (forall st, ph (root_consume w s o rest) = PTerminating st ->
+               (ph s = PTerminating st /\ termq (root_consume w s o rest) = termq s) \/ termq (root_consume w s o rest) = dom (actors s))).
+  { intros o rest Hrun. unfold root_consume. destruct w; [cbn; split; [done|]; intros st Hp; congruence|].
+    destruct o as [[|d] [k r|k r|[] t1 act|k t1]|t1]; cbn; (split; [done|]); intros st Hp; try congruence; by right. }
+  destruct l as [t ok|t ok|t|t r| | | | |ts| |t i ok|i]; cbn [exec]; intros H.
   - destruct (actors s !! t) as [a|] eqn:Ha; [|done]. destruct (inbox s !! t) as [[|m rest]|] eqn:Hib; try done.
     apply Happ in H as (a' & os & ob & Hst & H1 & H2 & H3). eauto 15.
   - destruct (actors s !! t) as [a|] eqn:Ha; [|done]. case_bool_decide; [|done].
@@ -35,9 +43,7 @@ Proof.
   - destruct (actors s !! t) as [a|] eqn:Ha; [|done]. destruct (match r with RCancelled => cancel_sent a | _ => true end); [|done].
     apply Happ in H as (a' & os & ob & Hst & H1 & H2 & H3). eauto 15.
   - destruct (root_running s && _) eqn:Hc; [|done]. apply andb_true_iff in Hc as [Hrun _]. apply bool_decide_eq_true in Hrun.
-    destruct (rootq s) as [|o rest]; [done|].
-    destruct w; [injection H as <-; cbn; split; [done|]; intros st Hp; congruence|].
-    destruct o as [[|d] [k r|k r|[] t1 act|k t1]|t1]; injection H as <-; cbn; (split; [done|]); intros st Hp; try congruence; by right.
+    destruct (rootq s) as [|o rest]; [done|]. injection H as <-. by apply Hroot.
   - destruct (root_running s && _ && _) eqn:Hc; [|done].
     apply andb_true_iff in Hc as [Hc _]. apply andb_true_iff in Hc as [Hrun _]. apply bool_decide_eq_true in Hrun.
     destruct (set_empty (r_svc s)); injection H as <-; cbn; (split; [done|]); intros st Hp; try congruence; by right.
@@ -45,6 +51,12 @@ Proof.
   - destruct (sigq s && _); [|done]. injection H as <-. cbn. split; [done|]. intros st Hp. by right.
   - destruct (w && _); [|done]. by injection H as <-.
   - destruct (ph s); try done. destruct (all_exited s); [|done]. injection H as <-. cbn. split; [done|]. intros st0 Hp. done.
+  - destruct (actors s !! t) as [a|] eqn:Ha; [|done]. destruct (inbox s !! t) as [l|] eqn:Hib; [|done].
+    destruct (pick i l) as [[[pre m] rest]|]; [|done]. destruct (none_from _ _ pre); [|done].
+    apply Happ in H as (a' & os & ob & Hst & H1 & H2 & H3). exists a, m, rest, a', os, ob. done.
+  - destruct (root_running s && _) eqn:Hc; [|done]. apply andb_true_iff in Hc as [Hrun _]. apply bool_decide_eq_true in Hrun.
+    destruct (pick i (rootq s)) as [[[pre o] rest]|]; [|done]. destruct (none_from _ _ pre); [|done]. injection H as <-.
+    by apply Hroot.
 Qed.
 
 Section term.
@@ -67,7 +79,7 @@ Section term.
                 winding_down s1 t a).
       { intros t0 a0' Hact Htq Hph Hne. rewrite Hact, lookup_insert_ne in Ha by done. rewrite Hph in Hp.
         destruct (IH st Hp t a Ha) as [?|[?|?]]; [by left|right; left; by rewrite Htq|by right; right]. }
-      destruct l as [t0 ok|t0 ok|t0|t0 r| | | | |ts|].
+      destruct l as [t0 ok|t0 ok|t0|t0 r| | | | |ts| |t0 i0 ok|i0].
       + destruct Hl as (a0 & m & rest & a0' & os & ob & Ha0 & _ & Hst & Hact & Htq & Hph).
         destruct (decide (t = t0)) as [->|Hne]; [|by eapply Hother].
         rewrite Hact, lookup_insert in Ha. injection Ha as <-. rewrite Hph in Hp.
@@ -116,6 +128,18 @@ Section term.
         * right; left. rewrite Hdom. by apply elem_of_dom.
       + destruct Hl as (Hact & Htq & Hph). rewrite Hact in Ha. rewrite Hph in Hp.
         destruct (IH st Hp t a Ha) as [?|[?|?]]; [by left|right; left; by rewrite Htq|by right; right].
+      + destruct Hl as [Hact Hroot]. rewrite Hact in Ha.
+        destruct (Hroot st Hp) as [[Hp0 Htq]|Hdom].
+        * destruct (IH st Hp0 t a Ha) as [?|[?|?]]; [by left|right; left; by rewrite Htq|by right; right].
+        * right; left. rewrite Hdom. by apply elem_of_dom.
+      + destruct Hl as (a0 & m & rest & a0' & os & ob & Ha0 & _ & Hst & Hact & Htq & Hph).
+        destruct (decide (t = t0)) as [->|Hne]; [|by eapply Hother].
+        rewrite Hact, lookup_insert in Ha. injection Ha as <-. rewrite Hph in Hp.
+        destruct (IH st Hp t0 a0 Ha0) as [Hex|[Hin|(Hk & H1 & H2 & H3 & H4)]].
+        * rewrite (step_not_exited _ _ _ _ _ _ _ Hst) in Hex. done.
+        * right; left. by rewrite Htq.
+        * right; right. destruct (step_same_id _ _ _ _ _ _ _ Hst) as (_ & Hk' & _). rewrite Hk'. split; [done|].
+          by eapply (step_cancelling_keeps _ _ _ _ _ _ _ Hst); eauto.
       + destruct Hl as [Hact Hroot]. rewrite Hact in Ha.
         destruct (Hroot st Hp) as [[Hp0 Htq]|Hdom].
         * destruct (IH st Hp0 t a Ha) as [?|[?|?]]; [by left|right; left; by rewrite Htq|by right; right].
